@@ -21,7 +21,10 @@ Record MidA (st : state) : Prop := mkMidA {
            replay (pend_for (st_pend st) s p) (st_mirror st s p) = index_at (st_tree st) p;
   mA_unsub : forall s p, subscribed st s p = false -> st_mirror st s p = [] /\ pend_for (st_pend st) s p = [];
   mA_hist : forall s p, replay (st_hist st s p) [] = st_mirror st s p;
-  mA_n : forall s, st_n st <= s -> st_subs st s = []
+  mA_n : forall s, st_n st <= s -> st_subs st s = [];
+  (* every delivered or pending op can be applied by a strict client *)
+  mA_fit : forall s p, subscribed st s p = true -> ops_fit (pend_for (st_pend st) s p) (st_mirror st s p) = true;
+  mA_hfit : forall s p, ops_fit (st_hist st s p) [] = true
 }.
 
 Definition J (st : state) (s : nat) : Prop :=
@@ -176,6 +179,11 @@ Proof.
       destruct (subscribed st s p); [|apply (mA_hist st M)].
       rewrite replay_app, (mA_hist st M). reflexivity.
     + intros s Hs. rewrite A in Hs. rewrite C. apply (mA_n st M s Hs).
+    + intros s p _. rewrite F. reflexivity.
+    + intros s p. rewrite fold_deliver_hist.
+      change (subscribed (with_pend st []) s p) with (subscribed st s p). simpl.
+      destruct (subscribed st s p) eqn:Es; [|apply (mA_hfit st M)].
+      rewrite ops_fit_app, (mA_hfit st M), (mA_hist st M). simpl. apply (mA_fit st M s p Es).
   - intro s. apply (J_ext st); [exact D | exact B | apply H6].
   - exact F.
 Qed.
@@ -186,9 +194,10 @@ Lemma tree_step_MidA : forall st t' p ops,
   MidA st -> twf t' ->
   (forall q, q <> p -> index_at t' q = index_at (st_tree st) q) ->
   replay ops (index_at (st_tree st) p) = index_at t' p ->
+  ops_fit ops (index_at (st_tree st) p) = true ->
   MidA (notify (with_tree st t') p ops).
 Proof.
-  intros st t' p ops M Hw Hother Hp. constructor; simpl.
+  intros st t' p ops M Hw Hother Hp Hfit. constructor; simpl.
   - exact Hw.
   - intros s q Hs. change (subscribed (notify (with_tree st t') p ops) s q) with (subscribed st s q) in Hs.
     rewrite pend_for_app, pend_for_notify. simpl.
@@ -208,6 +217,16 @@ Proof.
     + rewrite andb_false_r. reflexivity.
   - apply (mA_hist st M).
   - apply (mA_n st M).
+  - intros s q Hs. change (subscribed (notify (with_tree st t') p ops) s q) with (subscribed st s q) in Hs.
+    rewrite pend_for_app, pend_for_notify. simpl.
+    change (subscribed (with_tree st t') s p) with (subscribed st s p).
+    rewrite ops_fit_app, (mA_fit st M s q Hs), (mA_sub st M s q Hs). simpl.
+    destruct (path_eqb p q) eqn:E.
+    + apply path_eqb_eq in E. subst q. rewrite Hs.
+      replace (s <? st_n st) with true by (symmetry; apply Nat.ltb_lt; eapply subscribed_lt; eassumption).
+      simpl. exact Hfit.
+    + rewrite andb_false_r. reflexivity.
+  - apply (mA_hfit st M).
 Qed.
 
 Lemma tree_same_MidA : forall st t',
@@ -219,6 +238,8 @@ Proof.
   - apply (mA_unsub st M).
   - apply (mA_hist st M).
   - apply (mA_n st M).
+  - apply (mA_fit st M).
+  - apply (mA_hfit st M).
 Qed.
 
 Lemma own_inj : forall s s' p, own s p = true -> own s' p = true -> s = s'.
@@ -282,15 +303,16 @@ Proof. intros t p H. unfold has_node in H. destruct (lookup t p) as [n|]; [exist
 
 Lemma put_idx_MidA : forall st p n n' ops,
   MidA st -> lookup (st_tree st) p = Some n -> wfn (kids_of (st_tree st) p) n' ->
-  replay ops (index_of n) = index_of n' -> MidA (put_idx st p n' ops).
+  replay ops (index_of n) = index_of n' -> ops_fit ops (index_of n) = true -> MidA (put_idx st p n' ops).
 Proof.
-  intros st p n n' ops M Hl Hw Hr. unfold put_idx. apply tree_step_MidA.
+  intros st p n n' ops M Hl Hw Hr Hf. unfold put_idx. apply tree_step_MidA.
   - exact M.
   - apply twf_set_node; [apply (mA_twf st M) | exact Hw].
   - intros q Hq. rewrite (index_at_set_node _ _ n) by exact Hl.
     replace (path_eqb p q) with false; [reflexivity|]. symmetry. apply path_eqb_neq. congruence.
   - rewrite (index_at_set_node _ _ n) by exact Hl. rewrite path_eqb_refl.
     rewrite (index_at_lookup _ _ _ Hl). exact Hr.
+  - rewrite (index_at_lookup _ _ _ Hl). exact Hf.
 Qed.
 
 Lemma MidA_set_ipres : forall st s, MidA st -> MidA (set_ipres st s).
@@ -315,6 +337,7 @@ Proof.
   destruct (has_node_lookup _ _ Eh) as [n Hl]. rewrite (node_at_lookup _ _ _ Hl).
   destruct (remove_index_entry n k) as [n' ops] eqn:Er.
   destruct (remove_index_entry_spec (kids_of (st_tree st) p) n k n' ops (proj2 (mA_twf st M) p n Hl) Er) as (W & R & Nk & Sub & _).
+  pose proof (remove_index_entry_fits _ _ _ _ Er) as Fit.
   cbv zeta. split; [eapply put_idx_MidA; eassumption|]. split; [reflexivity|]. split; [simpl; apply keys_set_node|].
   intros q x Hx. simpl in Hx. rewrite (index_at_set_node _ _ n) in Hx by exact Hl.
   destruct (path_eqb p q) eqn:E.
@@ -466,6 +489,7 @@ Proof.
   destruct (remove_index_entry_at n pos) as [n' ops] eqn:Er.
   pose proof (proj2 (mA_twf st M) p n Hl) as Wn.
   destruct (remove_index_entry_at_spec _ _ _ _ _ Wn Er) as (W & R & _).
+  pose proof (remove_index_entry_at_fits _ _ _ _ Er) as Fit.
   split; [eapply put_idx_MidA; eassumption|].
   apply (I6_shrink st); [exact H6 | reflexivity|].
   intros q x Hx. simpl in Hx. rewrite (index_at_set_node _ _ n) in Hx by exact Hl.
@@ -528,6 +552,7 @@ Proof.
     + intros q Hq. rewrite (index_at_insert_child _ _ n) by exact Hl.
       replace (path_eqb p q) with false; [reflexivity|]. symmetry. apply path_eqb_neq. congruence.
     + rewrite (index_at_insert_child _ _ n) by exact Hl. rewrite path_eqb_refl, (index_at_lookup _ _ _ Hl). exact R.
+    + rewrite (index_at_lookup _ _ _ Hl). eapply insert_ordered_child_fits. exact Ei.
   - apply I6_set_ipres. intros s' Hne. apply (J_other st _ s s' p); [reflexivity | exact Ho | exact Hne | | apply H6].
     intros q Hq. simpl. rewrite (index_at_insert_child _ _ n) by exact Hl.
     replace (path_eqb p q) with false; [reflexivity|]. symmetry. apply path_eqb_neq. congruence.
@@ -543,6 +568,7 @@ Proof.
   destruct (reorder_child (kids_of (st_tree st) p) n c b) as [n' ops] eqn:Er.
   assert (Hc : In c (kids_of (st_tree st) p)) by (apply kids_of_In; exact Ec).
   destruct (reorder_child_spec _ _ _ _ _ _ (proj2 (mA_twf st M) p n Hl) Hc Er) as (W & R & _).
+  pose proof (reorder_child_fits _ _ _ _ _ _ (proj2 (mA_twf st M) p n Hl) Er) as Fit.
   split.
   - apply MidA_set_ipres. eapply put_idx_MidA; eassumption.
   - apply I6_set_ipres. intros s' Hne. apply (J_other st _ s s' p); [reflexivity | exact Ho | exact Hne | | apply H6].
@@ -653,6 +679,14 @@ Proof.
   rewrite Hhd. apply IH. intros e' He'. apply H. right. exact He'.
 Qed.
 
+Lemma gd_fits : forall ip rf s L q l,
+  ops_fit (flat_map (fun e => if path_eqb (fst e) q then gd_ops ip rf s e else []) L) l = true.
+Proof.
+  intros ip rf s L q. induction L as [|e L IH]; intro l; [reflexivity|]. simpl. rewrite ops_fit_app, IH, andb_true_r.
+  destruct (path_eqb (fst e) q); [|reflexivity]. unfold gd_ops.
+  destruct (own s (fst e) && negb ip && negb rf); [reflexivity | apply snapshot_fits].
+Qed.
+
 Lemma getdata_fields : forall st s pat,
   st_n (getdata st s pat) = st_n st /\ st_tree (getdata st s pat) = st_tree st /\ st_subs (getdata st s pat) = st_subs st /\
   st_ipres (getdata st s pat) = st_ipres st /\ st_refl (getdata st s pat) = st_refl st /\ st_pend (getdata st s pat) = st_pend st.
@@ -662,12 +696,13 @@ Lemma getdata_Inv_gen : forall st s pat,
   twf (st_tree st) -> I6 st -> st_pend st = [] ->
   (forall s' p, subscribed st s' p = false -> st_mirror st s' p = []) ->
   (forall s' p, replay (st_hist st s' p) [] = st_mirror st s' p) ->
+  (forall s' p, ops_fit (st_hist st s' p) [] = true) ->
   (forall s', st_n st <= s' -> st_subs st s' = []) ->
   (forall s' p, subscribed st s' p = true ->
      st_mirror st s' p = index_at (st_tree st) p \/ (s' = s /\ pmatch pat p = true /\ st_mirror st s' p = [])) ->
   Inv (getdata st s pat).
 Proof.
-  intros st s pat W H6 Hp Hun Hh Hn Hsub.
+  intros st s pat W H6 Hp Hun Hh Hhf Hn Hsub.
   destruct (getdata_fields st s pat) as (A & B & C & D & E & F).
   set (L := filter (fun e : path * inode => pmatch pat (fst e)) (st_tree st)).
   assert (HL : forall e, In e L -> lookup (st_tree st) (fst e) = Some (snd e)).
@@ -705,6 +740,10 @@ Proof.
     + intros s' p. rewrite Hm, Hhi. destruct (subscribed st s' p); [|apply Hh].
       rewrite replay_app, Hh. reflexivity.
     + intros s' Hs'. rewrite A in Hs'. rewrite C. apply Hn. exact Hs'.
+    + intros s' p _. rewrite F, Hp. reflexivity.
+    + intros s' p. rewrite Hhi. destruct (subscribed st s' p); [|apply Hhf].
+      rewrite ops_fit_app, Hhf. simpl.
+      destruct (Nat.eq_dec s' s) as [->|Hne]; [rewrite pend_for_gd; apply gd_fits | rewrite pend_for_gd_other by exact Hne; reflexivity].
   - intro s'. apply (J_ext st); [exact D | exact B | apply H6].
   - rewrite F. exact Hp.
 Qed.
@@ -715,6 +754,7 @@ Proof.
   - apply (mA_twf st M).
   - intros s' p Hs. apply (mA_unsub st M s' p Hs).
   - apply (mA_hist st M).
+  - apply (mA_hfit st M).
   - apply (mA_n st M).
   - intros s' p Hs. left. pose proof (mA_sub st M s' p Hs) as H. rewrite Hp in H. exact H.
 Qed.
@@ -754,6 +794,7 @@ Proof.
     destruct (Nat.eqb s' s) eqn:E; [|exact Hs]. apply Nat.eqb_eq in E. subst s'.
     apply orb_false_iff in Hs. apply Hs.
   - apply (mA_hist st M).
+  - apply (mA_hfit st M).
   - intros s' Hs'. simpl in *. destruct (Nat.eqb s' s) eqn:E; [apply Nat.eqb_eq in E; lia | apply (mA_n st M s' Hs')].
   - intros s' p Hs. rewrite Hsub0 in Hs. simpl.
     destruct (subscribed st s' p) eqn:Eo.
@@ -784,33 +825,67 @@ Proof.
   - intros s' p. destruct (negb (Nat.eqb s' s) || subscribed_in l p); [apply (mA_hist st M) | reflexivity].
   - intros s' Hs'. destruct (Nat.eqb s' s) eqn:E; [|apply (mA_n st M s' Hs')].
     apply Nat.eqb_eq in E. subst s'. unfold l. rewrite (mA_n st M s Hs'). reflexivity.
+  - intros s' p _. rewrite Hp. reflexivity.
+  - intros s' p. destruct (negb (Nat.eqb s' s) || subscribed_in l p); [apply (mA_hfit st M) | reflexivity].
 Qed.
 
 (* ------------------------------------------------------------------ CloneDataNodeSubtree (repaired) *)
 
+Lemma prim_remove_entry_index : forall st p k, has_node (st_tree st) p = true ->
+  index_at (st_tree (prim_remove_entry st p k)) p = fst (remove_entry k (index_at (st_tree st) p)).
+Proof.
+  intros st p k Eh. unfold prim_remove_entry. rewrite Eh.
+  destruct (has_node_lookup _ _ Eh) as [n Hl]. rewrite (node_at_lookup _ _ _ Hl), (index_at_lookup _ _ _ Hl).
+  unfold remove_index_entry, index_of. destruct (idx n) as [l|] eqn:El.
+  - destruct (remove_entry k l) as [l' ops] eqn:Er. simpl. rewrite (index_at_set_node _ _ n) by exact Hl.
+    rewrite path_eqb_refl. reflexivity.
+  - simpl. rewrite (index_at_set_node _ _ n) by exact Hl. rewrite path_eqb_refl. unfold index_of. rewrite El. reflexivity.
+Qed.
+
 Lemma copy_index_spec : forall cfg s dst l st w, fix_clone cfg = true -> own s dst = true ->
   MidA st -> I6x s st -> has_node (st_tree st) dst = true ->
+  NoDup l -> w <= length (index_at (st_tree st) dst) ->
+  (forall x, In x (firstn w (index_at (st_tree st) dst)) -> ~ In x l) ->
   MidA (copy_index cfg st dst l w) /\ I6x s (copy_index cfg st dst l w).
 Proof.
-  intros cfg s dst l. induction l as [|nm rest IH]; intros st w Hfix Ho M Hx Hd; [split; assumption|].
-  cbn [copy_index]. rewrite Hfix.
-  destruct (mem nm (kids_of (st_tree st) dst)) eqn:Em; [|apply IH; assumption].
+  intros cfg s dst l. induction l as [|nm rest IH]; intros st w Hfix Ho M Hx Hd Hnd Hw Hpre; [split; assumption|].
+  cbn [copy_index]. rewrite Hfix. inversion Hnd as [|? ? Hnm Hrest]; subst.
+  destruct (mem nm (kids_of (st_tree st) dst)) eqn:Em.
+  2:{ apply IH; try assumption. intros x Hin Hr. apply (Hpre x Hin). right. exact Hr. }
   destruct (prim_remove_entry_spec st dst nm M) as (M0 & I0 & K0 & S0).
+  pose proof (prim_remove_entry_index st dst nm Hd) as Hidx0.
   set (st0 := prim_remove_entry st dst nm) in *.
   assert (Hd0 : has_node (st_tree st0) dst = true) by (rewrite (has_node_keys _ _ dst K0); exact Hd).
   destruct (has_node_lookup _ _ Hd0) as [n0 Hl0]. rewrite (node_at_lookup _ _ _ Hl0).
+  (* the placed prefix survives the removal *)
+  destruct (remove_entry nm (index_at (st_tree st) dst)) as [l0 ops0] eqn:Er. simpl in Hidx0.
+  assert (Hnpre : ~ In nm (firstn w (index_at (st_tree st) dst))) by (intro Hin; apply (Hpre nm Hin); left; reflexivity).
+  destruct (remove_entry_prefix _ _ _ _ w Er Hw Hnpre) as [Hw0 Hf0].
+  rewrite (index_at_lookup _ _ _ Hl0) in Hidx0.
+  assert (Em0 : mem nm (kids_of (st_tree st0) dst) = true) by (rewrite (kids_of_keys _ _ dst K0); exact Em).
   destruct (insert_index_entry_at (kids_of (st_tree st0) dst) n0 w nm) as [n' ops] eqn:Ei.
+  assert (Hn' : index_of n' = insert_at (index_of n0) w nm).
+  { unfold insert_index_entry_at in Ei. rewrite Em0 in Ei. injection Ei as <- _. reflexivity. }
   assert (Hnot : ~ In nm (index_of n0)).
   { intro Hin. rewrite <- (index_at_lookup _ _ _ Hl0) in Hin. destruct (S0 dst nm Hin) as [_ Hne]. apply (Hne eq_refl). reflexivity. }
   destruct (insert_index_entry_at_spec _ _ _ _ _ _ (proj2 (mA_twf st0 M0) dst n0 Hl0) Hnot Ei) as (W & R & _).
+  assert (Fit : ops_fit ops (index_of n0) = true).
+  { eapply insert_index_entry_at_fits; [|exact Ei]. rewrite Hidx0. exact Hw0. }
   assert (Hx0 : I6x s st0).
   { apply (I6x_shrink s st); [exact Hx | exact I0 | intros q x Hq; apply (S0 q x Hq)]. }
+  assert (Hidx1 : index_at (st_tree (put_idx st0 dst n' ops)) dst = insert_at l0 w nm).
+  { simpl. rewrite (index_at_set_node _ _ n0) by exact Hl0. rewrite path_eqb_refl, Hn', Hidx0. reflexivity. }
   apply IH; try assumption.
   - eapply put_idx_MidA; eassumption.
   - intros s' Hne. apply (J_other st0 _ s s' dst); [reflexivity | exact Ho | exact Hne | | apply Hx0; exact Hne].
     intros q Hq. simpl. rewrite (index_at_set_node _ _ n0) by exact Hl0.
     replace (path_eqb dst q) with false; [reflexivity|]. symmetry. apply path_eqb_neq. congruence.
   - simpl. rewrite has_node_set_node. exact Hd0.
+  - rewrite Hidx1, insert_at_length. lia.
+  - rewrite Hidx1. intros x Hin. rewrite firstn_insert_at in Hin by exact Hw0. rewrite Hf0 in Hin.
+    apply in_app_or in Hin. destruct Hin as [Hin|[<-|[]]].
+    + intro Hr. apply (Hpre x Hin). right. exact Hr.
+    + exact Hnm.
 Qed.
 
 Lemma clone_Mid : forall cfg fuel st s src dstrel addidx b, fix_clone cfg = true -> Mid st ->
@@ -825,11 +900,15 @@ Proof.
   { induction ks as [|k ks IHk]; intros st' HM'; [exact HM'|]. simpl. apply IHk. apply IH; assumption. }
   specialize (Hfold (kids_of (st_tree st1) src) st1 HM1).
   set (st2 := fold_left (fun st k => clone cfg f st s (src ++ [k]) (dstrel ++ [k]) false BEnd) (kids_of (st_tree st1) src) st1) in *.
-  destruct (idx (node_at st2 src)) as [l|]; [|exact Hfold].
+  destruct (idx (node_at st2 src)) as [l|] eqn:El; [|exact Hfold].
   destruct (has_node (st_tree st2) (NS s :: dstrel)) eqn:Ed; [|exact Hfold].
   rewrite Hfix. destruct Hfold as [M2 H62].
   assert (Ho : own s (NS s :: dstrel) = true) by (simpl; apply Nat.eqb_refl).
-  destruct (copy_index_spec cfg s (NS s :: dstrel) l st2 0 Hfix Ho M2 (I6_I6x _ _ H62) Ed) as [M3 X3].
+  assert (Hnd : NoDup l).
+  { unfold node_at in El. destruct (lookup (st_tree st2) src) as [m|] eqn:Els; [|discriminate].
+    pose proof (proj1 (proj2 (mA_twf st2 M2) src m Els)) as Hn. unfold index_of in Hn. rewrite El in Hn. exact Hn. }
+  destruct (copy_index_spec cfg s (NS s :: dstrel) l st2 0 Hfix Ho M2 (I6_I6x _ _ H62) Ed Hnd (Nat.le_0_l _)) as [M3 X3].
+  { intros x Hin. inversion Hin. }
   split; [apply MidA_set_ipres; exact M3 | apply I6_set_ipres; exact X3].
 Qed.
 
@@ -860,6 +939,8 @@ Proof.
     destruct (mA_unsub st M s' p Hs) as [H1 _]. split; [exact H1 | reflexivity].
   - intros s' p. destruct (Nat.eqb s' s); [reflexivity | apply (mA_hist st M)].
   - intros s' Hs'. destruct (Nat.eqb s' s); [reflexivity | apply (mA_n st M s' Hs')].
+  - intros s' p _. rewrite Hp. reflexivity.
+  - intros s' p. destruct (Nat.eqb s' s); [reflexivity | apply (mA_hfit st M)].
 Qed.
 
 (* ------------------------------------------------------------------ commands, steps, runs *)
@@ -892,18 +973,43 @@ Proof.
   - destruct (has_node (st_tree st) src); [apply restore_Mid|]; exact HM.
   - apply prim_remove_entry_at_Mid; exact HM.
   - apply remove_child_rec_Mid; exact HM.
+  - exact HM.
 Qed.
 
 Lemma flush_n : forall st, st_n (flush st) = st_n st.
 Proof. intro st. unfold flush. destruct (fold_deliver_fields (st_pend st) (with_pend st [])) as (A & _). exact A. Qed.
 
-Lemma exec_Inv : forall cfg s st c, cfg_ok cfg -> Inv st -> Inv (exec cfg s st c).
+Lemma attach_Inv : forall st, Inv st -> Inv (attach st).
 Proof.
-  intros cfg s st c Hc HI. unfold exec. destruct ((s <? st_n st) && has_node (st_tree st) [NS s]) eqn:E; [|exact HI].
+  intros st (M & H6 & Hp). split; [|split; [|exact Hp]].
+  - constructor; simpl.
+    + apply twf_add_node. apply (mA_twf st M).
+    + intros s p Hs. rewrite index_at_add_node. apply (mA_sub st M s p Hs).
+    + apply (mA_unsub st M).
+    + apply (mA_hist st M).
+    + intros s Hs. apply (mA_n st M). lia.
+    + apply (mA_fit st M).
+    + apply (mA_hfit st M).
+  - apply (I6_shrink st); [exact H6 | reflexivity|]. intros q x Hx. simpl in Hx. rewrite index_at_add_node in Hx. exact Hx.
+Qed.
+
+Lemma exec_guarded_Inv : forall cfg s st c, cfg_ok cfg -> Inv st ->
+  Inv (if (s <? st_n st) && has_node (st_tree st) [NS s]
+       then match c with CDetach => drop_session (flush (handle cfg st s c)) s | _ => flush (handle cfg st s c) end
+       else st).
+Proof.
+  intros cfg s st c Hc HI. destruct ((s <? st_n st) && has_node (st_tree st) [NS s]) eqn:E; [|exact HI].
   apply andb_true_iff in E. destruct E as [E _].
   apply Nat.ltb_lt in E. destruct (handle_Mid cfg st s c Hc HI E) as [M H6].
   pose proof (flush_Inv _ M H6) as HF.
   destruct c; try exact HF. apply drop_session_Inv. exact HF.
+Qed.
+
+Lemma exec_Inv : forall cfg s st c, cfg_ok cfg -> Inv st -> Inv (exec cfg s st c).
+Proof.
+  intros cfg s st c Hc HI. unfold exec.
+  pose proof (exec_guarded_Inv cfg s st c Hc HI) as G.
+  destruct c; try exact G. apply attach_Inv. exact HI.
 Qed.
 
 Lemma Inv_with_out : forall st o, Inv st -> Inv (with_out st o).
@@ -935,6 +1041,8 @@ Proof.
     + intros s p _. split; reflexivity.
     + intros s p. reflexivity.
     + intros s _. reflexivity.
+    + intros s p _. reflexivity.
+    + intros s p. reflexivity.
   - intro s. right. intros p _. simpl. unfold index_at.
     destruct (lookup (init_tree n) p) as [m|] eqn:E; [rewrite (init_tree_lookup _ _ _ E)|]; reflexivity.
   - reflexivity.
@@ -1004,4 +1112,28 @@ Proof.
   assert (Hv : v = parent_of v ++ [last_name v]).
   { unfold parent_of, last_name. apply app_removelast_last. intro E. subst v. simpl in Hl. lia. }
   rewrite <- Hv in Hin. congruence.
+Qed.
+
+(* every op of the delivered stream can be applied by a strict client (insert positions within the replica,
+   remove positions holding the named key), starting from nothing *)
+Theorem log_fits : forall n steps s p, ops_fit (st_hist (run cfg_fixed n steps) s p) [] = true.
+Proof.
+  intros n steps s p. destruct (run_Inv cfg_fixed n steps cfg_fixed_ok) as (M & _ & _). apply (mA_hfit _ M).
+Qed.
+
+(* a session that leaves takes its nodes and its subscriptions with it; the invariant goes on *)
+Theorem detach_clean : forall cfg st s, cfg_ok cfg -> Inv st -> s < st_n st -> has_node (st_tree st) [NS s] = true ->
+  let st' := exec cfg s st CDetach in
+  Inv st' /\ st_subs st' s = [] /\ forall p, own s p = true -> has_node (st_tree st') p = false /\ index_at (st_tree st') p = [].
+Proof.
+  intros cfg st s Hc HI Hlt Hh st'. split; [apply exec_Inv; assumption|].
+  unfold st', exec. cbv iota. replace (s <? st_n st) with true by (symmetry; apply Nat.ltb_lt; exact Hlt). rewrite Hh. simpl andb. cbv iota.
+  split; [simpl; rewrite Nat.eqb_refl; reflexivity|].
+  intros p Ho. simpl st_tree. unfold flush.
+  destruct (fold_deliver_fields (st_pend (remove_child_rec st [NS s])) (with_pend (remove_child_rec st [NS s]) [])) as (_ & B & _).
+  rewrite B. simpl st_tree. unfold remove_child_rec. rewrite Hh. simpl st_tree.
+  assert (Hp : is_prefix [NS s] p = true).
+  { destruct p as [|[x|x|x] p]; simpl in Ho; try discriminate. apply Nat.eqb_eq in Ho. subst x.
+    apply (is_prefix_app [NS s] p). }
+  unfold has_node, index_at. rewrite lookup_delete_subtree, Hp. split; reflexivity.
 Qed.
